@@ -247,34 +247,39 @@ def fields_mapping_facts():
     m = _pm()
     fi = m.func("gapic.schema.wrappers.Method._fields_mapping")
     nf = nfunc(m, fi, keep={"RESERVED_NAMES", "get_field", "OrderedDict"})
-    FIELD = "self.input.get_field(*_ANYK_.split('.'))"
-    pat_pp = canon_globals(m, norm_expr(ast.parse(
-        f"f'{{_ANYK_}}_' if {FIELD}.field_pb.name in utils.RESERVED_NAMES and {FIELD}.meta.address.is_proto_plus_type else _ANYK_", mode="eval").body))
-    pat = canon_globals(m, norm_expr(ast.parse(
-        f"f'{{_ANYK_}}_' if {FIELD}.field_pb.name in utils.RESERVED_NAMES else _ANYK_", mode="eval").body))
     facts = {"fi": fi, "key_rule": False, "key_pos": False, "order": False, "shown": "", "proto_plus_only": False}
     # the (key, field) generator may live in a sibling helper method: look at the function and at the helpers it calls
     views = helper_views(m, fi, keep={"RESERVED_NAMES", "get_field", "OrderedDict"})
     node = b = None
-    nf_main = nf
-    for v_ in views:
-        node, b = find_match_ast(pat_pp, v_)
-        if node is not None:
-            facts["proto_plus_only"] = True
-            nf = v_
-            break
-    if node is None:
+    # get_field(*path.split('.')) and get_field(path) resolve the same field (get_field itself splits a single dotted argument)
+    FIELD_FORMS = ("self.input.get_field(*_ANYK_.split('.'))", "self.input.get_field(_ANYK_)")
+    FIELD_SRC = None
+    for FIELD in FIELD_FORMS:
+        pat_pp = canon_globals(m, norm_expr(ast.parse(
+            f"f'{{_ANYK_}}_' if {FIELD}.field_pb.name in utils.RESERVED_NAMES and {FIELD}.meta.address.is_proto_plus_type else _ANYK_", mode="eval").body))
+        pat = canon_globals(m, norm_expr(ast.parse(
+            f"f'{{_ANYK_}}_' if {FIELD}.field_pb.name in utils.RESERVED_NAMES else _ANYK_", mode="eval").body))
         for v_ in views:
-            node, b = find_match_ast(pat, v_)
+            node, b = find_match_ast(pat_pp, v_)
             if node is not None:
+                facts["proto_plus_only"] = True
                 nf = v_
                 break
+        if node is None:
+            for v_ in views:
+                node, b = find_match_ast(pat, v_)
+                if node is not None:
+                    nf = v_
+                    break
+        if node is not None:
+            FIELD_SRC = FIELD
+            break
     if node is None:
         return facts
     K = b["_ANYK_"]
     facts["key_rule"] = K.endswith(".strip()")
     facts["shown"] = ast.unparse(node)[:160]
-    field_src = f"self.input.get_field(*{K}.split('.'))"
+    field_src = FIELD_SRC.replace("_ANYK_", K)
     for n in ast.walk(nf):
         if isinstance(n, ast.Yield) and isinstance(n.value, ast.Tuple) and len(n.value.elts) == 2 and n.value.elts[0] is node \
                 and ast.unparse(n.value.elts[1]) == field_src:
